@@ -119,7 +119,7 @@ def check_linear(chk, sc, out, path, cfg, tn):
         sim, info = simulate(chk, m, db, ir.Span(per(1), per(tn)), method, terminal, guess)
     except Exception as ex:
         chk.mismatch(tag + ":raised:" + type(ex).__name__, desc + ": raised %r" % (ex,), payload)
-        return False
+        return True             # a verdict was reached (the vacuity guard counts verdicts, not successes)
     if sim is None:
         return False
     # with terminal="data" every frame ends in the same input data, which is the first-order continuation of the last frame only
@@ -210,7 +210,7 @@ def check_exact(chk, sc, out, cfg, tn):
         sim, info = simulate(chk, m, db, ir.Span(per(1), per(tn)), method, terminal, guess)
     except Exception as ex:
         chk.mismatch(tag + ":raised:" + type(ex).__name__, desc + ": raised %r" % (ex,), payload)
-        return False
+        return True             # a verdict was reached (the vacuity guard counts verdicts, not successes)
     if sim is None:
         return False
     comparable = terminal != "data" or len(out["breaks"]) == 1
@@ -256,7 +256,7 @@ def check_clause(chk, sc, out, cfg, tn):
         sim, info = simulate(chk, m, db, ir.Span(per(1), per(tn)), method, terminal, guess)
     except Exception as ex:
         chk.mismatch(tag + ":raised:" + type(ex).__name__, desc + ": raised %r" % (ex,), payload)
-        return False
+        return True             # a verdict was reached (the vacuity guard counts verdicts, not successes)
     if sim is None:
         return False
     fr_ = frames_ok(chk, tag, desc, payload, info, out["breaks"], method, tn)
@@ -301,7 +301,7 @@ def check_tiny(chk, sc, out, path0, tn):
         sim, info = simulate(chk, m, db, ir.Span(per(1), per(tn)), "stacked_time", "first_order", "first_order")
     except Exception as ex:
         chk.mismatch(tag + ":raised:" + type(ex).__name__, desc + ": raised %r" % (ex,), payload)
-        return False
+        return True             # a verdict was reached (the vacuity guard counts verdicts, not successes)
     if sim is None:
         return False
     if frames_ok(chk, tag, desc, payload, info, out["breaks"], "stacked_time", tn) is None:
